@@ -3,6 +3,7 @@ package checks
 import (
 	"bytes"
 	"fmt"
+	"time"
 
 	"verif/ck"
 	"verif/gw"
@@ -27,6 +28,12 @@ func C15(r *ck.Run) {
 			ci, cfg, withPolicy := cj, cfgs[cj/2], cj%2 == 0
 			build := func(ro bool) *World {
 				w := NewWorld("c15", cfg)
+				if cfg.Versioning {
+					// history that only time produces: a retention period that has run out when the reads arrive
+					until := time.Now().Add(1200 * time.Millisecond).UTC().Format("2006-01-02T15:04:05.000Z")
+					Must(w.F.Do(gw.Root, "PUT", gw.ObjPath(w.LockBkt, "locked"), "retention", nil, []byte("<Retention><Mode>GOVERNANCE</Mode><RetainUntilDate>"+until+"</RetainUntilDate></Retention>")), "short retention")
+					time.Sleep(1300 * time.Millisecond)
+				}
 				if !withPolicy {
 					// access by ACL only: owner usr1 has FULL_CONTROL, usr3 gets WRITE+READ grants
 					Must(w.F.Do(gw.Root, "PUT", "/"+w.Bucket, "acl", H("x-amz-grant-write", "usr3", "x-amz-grant-read", "usr3"), nil), "grant acl")
@@ -113,6 +120,25 @@ func C15(r *ck.Run) {
 						}
 						if ep.ID == "PutObject" && c == gw.Root && ci == 0 {
 							r.Sample(map[string]any{"endpoint": ep.ID, "caller": c.Access, "status": resp.Status, "code": resp.ErrCode()})
+						}
+					}
+				}
+			}
+			// reads of the object whose retention period has run out (HEAD, GET, attributes, retention, legal hold)
+			if cfg.Versioning && r.Mine(idx+1) {
+				for _, c := range []gw.Creds{gw.Root, cUsr1} {
+					for _, rd := range []struct{ m, q string }{{"HEAD", ""}, {"GET", ""}, {"GET", "retention"}, {"GET", "legal-hold"}, {"GET", "attributes"}, {"GET", "tagging"}} {
+						req := NewReq(rd.m, gw.ObjPath(ro.LockBkt, "locked"), rd.q, nil, nil)
+						if rd.q == "attributes" {
+							req.Set("x-amz-object-attributes", "ETag,ObjectSize")
+						}
+						gw.Sign(req, c, gw.SignOpts{})
+						resp := ro.F.G.Do(req)
+						r.Add("evaluations", 1)
+						r.Distinct(fmt.Sprintf("%d|expired-retention|%s|%s|%s", ci, rd.m, rd.q, c.Access))
+						if diff := base.Diff(ro.F.G.Snapshot(gw.SnapOpts{}), 6); len(diff) > 0 {
+							r.Violation(ck.JoinSig("read-of-object-with-expired-retention", rd.m+" "+rd.q, roleOf(c), "state-changed-in-read-only-mode"), map[string]any{"config": fmt.Sprintf("%+v", cfg), "request": req.String(), "response": resp.String(), "state_diff": diff})
+							base = ro.F.G.Snapshot(gw.SnapOpts{})
 						}
 					}
 				}
